@@ -69,3 +69,26 @@ def metered(func, budget):
         _state['peak'] = tracemalloc.get_traced_memory()[1] - base \
             if tracing else 0
     return st, v, _state['n']
+
+
+class CountingBytes(bytes):
+    """bytes whose slices are counted: every slice taken from the input (and
+    from slices of it) adds its length to a shared counter.  A third
+    deterministic work meter next to line events and allocation peak: the
+    bytes a decoder copies out of its input.  Code that does not slice
+    (memoryview, struct.unpack_from) is simply not counted."""
+    def __new__(cls, data, ctr=None):
+        self = bytes.__new__(cls, data)
+        self._ctr = ctr if ctr is not None else [0]
+        return self
+
+    def __getitem__(self, i):
+        r = bytes.__getitem__(self, i)
+        if isinstance(i, slice):
+            self._ctr[0] += len(r)
+            return CountingBytes(r, self._ctr)
+        return r
+
+    @property
+    def copied(self):
+        return self._ctr[0]
